@@ -268,7 +268,20 @@ def getattr(I, st, v, name):
         if name == "is_integer" and not is_z3(v):
             yield st, simple("is_integer", lambda I, st: Fraction(v).denominator == 1)
             return
+    if type(v).__name__ == "IinfoVal":
+        if name in ("min", "max"):
+            yield st, _b.getattr(v, name)
+            return
+        raise Unsupported("iinfo attribute " + name)
+    if type(v).__name__ == "DtypeVal":
+        if name == "kind":
+            yield st, v.kind
+            return
+        raise Unsupported("dtype attribute " + name)
     if v is None:
+        if name == "__class__":  # None.__class__ is type(None)
+            yield st, BuiltinClass("NoneType", type(None))
+            return
         yield st, exc("AttributeError", "'NoneType' object has no attribute '%s'" % name)
         return
     if isinstance(v, Unknown):
@@ -604,7 +617,7 @@ def dict_method(I, st, ref, name):
     def get(I, st, a, k):
         d = D(st)
         default = a[1] if len(a) > 1 else k.get("default", None)
-        if is_z3(a[0]):
+        if M.has_symkey(a[0]) or M.dict_symkeyed(st.get(ref)):
             for s2, v in M.dict_symbolic_get(I, st, st.get(ref), a[0]):
                 yield s2, (default if isinstance(v, Exc) else v)
             return
@@ -621,6 +634,8 @@ def dict_method(I, st, ref, name):
 
     def update(I, st, a, k):
         d = D(st)
+        if M.dict_symkeyed(st.get(ref)) or (a and isinstance(a[0], Ref) and st.get(a[0]).kind == "dict" and M.dict_symkeyed(st.get(a[0])) and d):
+            raise Unsupported("dict.update with symbolic keys")
         if a:
             src = a[0]
             if isinstance(src, Ref) and st.get(src).kind == "dict":
@@ -634,6 +649,8 @@ def dict_method(I, st, ref, name):
 
     def pop(I, st, a, k):
         d = D(st)
+        if M.dict_symkeyed(st.get(ref)):
+            raise Unsupported("dict.pop with symbolic keys")
         key = I.hashable(a[0])
         if key in d:
             yield st, d.pop(key)
@@ -644,6 +661,8 @@ def dict_method(I, st, ref, name):
 
     def setdefault(I, st, a, k):
         d = D(st)
+        if M.dict_symkeyed(st.get(ref)):
+            raise Unsupported("dict.setdefault with symbolic keys")
         key = I.hashable(a[0])
         if key not in d:
             d[key] = a[1] if len(a) > 1 else None
@@ -878,6 +897,10 @@ def call_builtin_class(I, st, c, args, kwargs):
         yield st, type_of(I, st, args[0])
     elif n == "range":
         yield st, make_range(I, st, args)
+    elif n == "ndarray":
+        from . import npmodel
+
+        yield from npmodel.ndarray_new(I, st, args, kwargs)
     else:
         raise Unsupported("call of builtin class " + n)
 
@@ -934,9 +957,16 @@ def to_float(I, st, v):
         yield st, Fraction(v)
     elif isinstance(v, str):
         try:
-            yield st, to_frac(float(v))
+            f = float(v)
         except ValueError as e:
             yield st, exc("ValueError", str(e))
+            return
+        if f != f:
+            yield st, Opaque("nan")  # float("nan"): the NaN literal (A1: no real value is NaN)
+        elif f in (float("inf"), float("-inf")):
+            raise Unsupported("float('inf')")
+        else:
+            yield st, to_frac(f)
     elif is_z3(v) and z3.is_int(v):
         yield st, z3.ToReal(v)
     elif is_z3(v):
@@ -1692,4 +1722,5 @@ def make_ext_modules(I):
     E["io"] = {"DEFAULT_BUFFER_SIZE": 8192}
     E["numpy"] = npmodel.make_module(I)
     E["numpy.linalg"] = npmodel.make_linalg(I)
+    E["numpy.char"] = npmodel.make_char(I)
     return E
